@@ -248,7 +248,13 @@ pub fn history(data: &[u8], known: &[&str]) -> Option<Found> {
                 let (i, j) = ((b as usize >> 2) % 3, (b as usize >> 4) % 3);
                 ops.push(match b % 4 {
                     0 | 1 => c11::Op11::Add { i, x: first(&mut u)?, y: second(&mut u)? },
-                    2 => c11::Op11::Merge { i, j },
+                    2 => {
+                        if b & 0xc0 == 0xc0 {
+                            c11::Op11::SelfMerge { i, times: 54 }
+                        } else {
+                            c11::Op11::Merge { i, j }
+                        }
+                    }
                     _ => {
                         if b & 0x80 != 0 {
                             c11::Op11::New { i }
